@@ -39,7 +39,7 @@ Definition pstep_run (c : cfg) (m : master) (s : pstep) : master * bool * list p
   | POnline flags dev ports => let '(m', r) := handle_online c flags dev ports m in (m', true, r)
   | PPollReconnect flags dev ports => let '(m', r) := poll_reconnect c flags dev ports m in (m', true, r)
   | PSetAttr id n v => (set_attr_offline id n v m, true, [])
-  | PWriteValue id v => (write_value_offline id v m, true, [])
+  | PWriteValue id v => (write_value_offline c id v m, true, [])
   | PPatchDevice ps => (patch_device_offline ps m, true, [])
   | PProvision flags => let '(m', r) := apply_provisioning c flags m in (m', true, r)
   end.
